@@ -142,6 +142,9 @@ def compile_tunit(t_unit):
     return CKernel(t_unit, code)
 
 
+# offset value-argument loopy adds for offset=auto arrays (made unique with a numeric suffix
+# when the plain name is taken)
+_OFFSET_RE = re.compile(r"^(.*)_offset(_\d+)?$")
 SENT_INT = -77
 SENT_FLOAT = -7.7777e33
 
@@ -241,8 +244,8 @@ class CKernel:
                 tv = k.temporary_variables[nm]
                 shape = self._eval_shape(tv.shape, env)
                 buf = _sentinel(shape, tv.dtype.numpy_dtype)
-            elif (not is_ptr and nm.endswith("_offset")
-                    and nm[:-len("_offset")] in arg_dict):
+            elif (not is_ptr and _OFFSET_RE.match(nm)
+                    and _OFFSET_RE.match(nm).group(1) in arg_dict):
                 # offset value-argument loopy adds for offset=auto arrays
                 cargs.append(cty(0))
                 continue
